@@ -60,7 +60,11 @@ def fold(t: Term):
 
 def const_elements(t: Term):
     """Elements of a constant collection term, in iteration order; None if not constant."""
-    if isinstance(t, tuple) and t and t[0] in ('set', 'seq') and isinstance(t[1], tuple) and all(isinstance(x, tuple) and x[:1] == ('const',) for x in t[1]):
+    def is_const(x) -> bool:
+        if isinstance(x, tuple) and x[:1] == ('const',):
+            return True
+        return isinstance(x, tuple) and len(x) == 2 and x[0] == 'seq' and isinstance(x[1], tuple) and all(is_const(y) for y in x[1])
+    if isinstance(t, tuple) and t and t[0] in ('set', 'seq') and isinstance(t[1], tuple) and all(is_const(x) for x in t[1]):
         return list(t[1])
     return None
 
@@ -130,7 +134,8 @@ class PyNorm:
                     self._store(t, v, p)
                 out.append(p)
             return out
-        if isinstance(s, ast.For) and isinstance(s.target, ast.Name) and not s.orelse:
+        if isinstance(s, ast.For) and not s.orelse and (isinstance(s.target, ast.Name) or
+                                                        (isinstance(s.target, ast.Tuple) and all(isinstance(e, ast.Name) for e in s.target.elts))):
             out = []
             for p in paths:
                 elems = const_elements(self.term(s.iter, p.env))
@@ -143,7 +148,14 @@ class PyNorm:
                         if q.returned or getattr(q, 'broken', False):
                             nxt.append(q)
                             continue
-                        q.env[s.target.id] = el
+                        if isinstance(s.target, ast.Name):
+                            q.env[s.target.id] = el
+                        else:
+                            parts = const_elements(el)
+                            if parts is None or len(parts) != len(s.target.elts):
+                                raise AnalysisError(f'norm: cannot unpack a table row in {self.fi.short}: {src(s.iter)[:40]!r}')
+                            for nm, part in zip(s.target.elts, parts):
+                                q.env[nm.id] = part
                         nxt += self._block(s.body, [q])
                     live = nxt
                 for q in live:
@@ -179,6 +191,10 @@ class PyNorm:
     def _store(self, target, v: Term, p: Path) -> None:
         if isinstance(target, ast.Name):
             p.env[target.id] = v
+            return
+        if isinstance(target, (ast.Tuple, ast.List)) and isinstance(v, tuple) and v[:1] == ('seq',) and len(v[1]) == len(target.elts):
+            for t_, part in zip(target.elts, v[1]):
+                self._store(t_, part, p)
             return
         if isinstance(target, ast.Subscript) and isinstance(target.value, ast.Name):
             base = p.env.get(target.value.id)
@@ -301,6 +317,10 @@ class PyNorm:
 
     def _call(self, e: ast.Call, env) -> Term:
         args = [self.term(a, env) for a in e.args]
+        if isinstance(e.func, ast.Attribute) and isinstance(e.func.value, ast.Name) and e.func.value.id == 'dict' and e.func.attr == 'fromkeys' and len(args) in (1, 2) and not e.keywords:
+            keys = const_elements(args[0])
+            if keys is not None and all(k[:1] == ('const',) for k in keys):
+                return ('dict', {canon_key(k[1]): (args[1] if len(args) == 2 else const(None)) for k in keys})
         if e.keywords:
             raise AnalysisError(f'norm: keyword arguments unsupported in {src(e)[:60]!r}')
         if isinstance(e.func, ast.Name):
@@ -330,6 +350,11 @@ class PyNorm:
             return ('call', fn) + tuple(args)
         if isinstance(e.func, ast.Attribute):
             recv = self.term(e.func.value, env)
+            if e.func.attr == 'isdisjoint' and len(args) == 1:
+                x, y = sorted([recv, args[0]], key=repr)
+                return t_not(('intersects', x, y))
+            if e.func.attr == 'intersection' and len(args) == 1:
+                return ('bin', '&', recv, args[0])
             return ('method', e.func.attr, recv) + tuple(args)
         raise AnalysisError(f'norm: unsupported call {src(e)[:60]!r}')
 
